@@ -7,10 +7,10 @@ func init() {
 }
 
 // shapes without function-less frames (entry identity = function name)
-var vC04Shapes = []int{6, 5, 1, 0, 2, 3, 7}
+var vC04Shapes = []int{6, 5, 1, 0, 2, 3, 7, 8, 9}
 
 // order used by the trimming check (C05)
-var vC05Shapes = []int{6, 1, 5, 0, 2, 3, 7}
+var vC05Shapes = []int{6, 1, 5, 0, 2, 3, 7, 8, 9}
 
 // VerifC04TextItems: flat / cum / edge weights of an untrimmed report equal
 // their definition over the samples, for every sample value.
